@@ -29,6 +29,34 @@ pub fn open_store(dir: &Path, max_cp: usize) -> StateStore {
     })
 }
 
+// fault injection for "the file write of a checkpoint fails": the soft RLIMIT_FSIZE of the process is lowered to 0 around the call
+// (SIGXFSZ ignored, so the write returns EFBIG, as on a full disk); Linux only; the replayer is single-threaded
+#[repr(C)]
+struct RLimit {
+    cur: u64,
+    max: u64,
+}
+extern "C" {
+    fn getrlimit(resource: i32, rlim: *mut RLimit) -> i32;
+    fn setrlimit(resource: i32, rlim: *const RLimit) -> i32;
+    fn signal(signum: i32, handler: usize) -> usize;
+}
+const RLIMIT_FSIZE: i32 = 1;
+const SIGXFSZ: i32 = 25;
+const SIG_IGN: usize = 1;
+pub fn with_file_writes_failing<T>(f: impl FnOnce() -> T) -> T {
+    unsafe {
+        signal(SIGXFSZ, SIG_IGN);
+        let mut old = RLimit { cur: 0, max: 0 };
+        getrlimit(RLIMIT_FSIZE, &mut old);
+        let zero = RLimit { cur: 0, max: old.max };
+        setrlimit(RLIMIT_FSIZE, &zero);
+        let r = f();
+        setrlimit(RLIMIT_FSIZE, &old);
+        r
+    }
+}
+
 pub struct CK {
     s: StateStore,
     dir: PathBuf,
@@ -100,6 +128,7 @@ impl Model for CK {
             "put_ttl" => self.s.put_with_ttl(k, v, Duration::from_millis(l["ttl"].as_u64().unwrap())).is_ok(),
             "update" => self.s.update(k, v).is_ok(),
             "delete" => self.s.delete(k).is_ok(),
+            "checkpoint_fails" => with_file_writes_failing(|| self.s.checkpoint("cp")).is_ok(),
             "reopen" => {
                 // a restart: a new store on the same directory (the old object is dropped)
                 self.s = open_store(&self.dir, self.max_cp);
